@@ -72,6 +72,20 @@ def gen(tier, seed):
         for x in surplus:
             for feat in (0, 1):
                 specs.append(("surplus", feat, SRC, [], [("move", ("reg", 1), 0x3003), ("move", ("reg", 2), 0x3002), ("eval", c + " " + x)] + tail))
+    # label operands at the very edge of each PC-relative field: the label exactly 2^(n-1) behind / 2^(n-1)-1 ahead of the
+    # incremented PC (accepted: the field's extreme values), one beyond (refused, no effect) - from every PC around that point
+    for orig in (0x3000, 0x9000):
+        far = (".orig x%X\n" % orig) + "first .fill x1234\nsecond .fill x0042\n.blkw #1100\nlast .fill x0777\nhalt\n"
+        last = orig + 1102
+        ftail = [("registers",), ("print", ("mem", ("label", "first", 0))), ("print", ("mem", ("label", "second", 0))),
+                 ("print", ("mem", ("label", "last", 0))), ("exit",)]
+        for form, bits, feat in (("ld r0 {l}", 9, 0), ("ldi r1 {l}", 9, 0), ("lea r2 {l}", 9, 0), ("st r3 {l}", 9, 0), ("sti r4 {l}", 9, 0),
+                                 ("jsr {l}", 11, 0), ("call {l}", 10, 1)):
+            lim = 1 << (bits - 1)
+            for k in (-3, -2, -1, 0, 1, 2):
+                for lab, pc in (("first", orig + lim + k), ("second", orig + 1 + lim + k), ("last", last - lim + k)):
+                    specs.append(("label-distance", feat, far, [], [("move", ("reg", 3), 0x5A5A), ("move", ("reg", 4), 0x00A5), ("goto", ("addr", pc)),
+                                                                    ("eval", form.format(l=lab))] + ftail))
     for text in BAD + [f.format(a=1, b=2, c=3, i=5, o=-2, l="later") for f in FORMS]:
         for pre in ([], [("stepinto", 2)], [("goto", ("addr", 0x3005))]):
             for feat in (0, 1):
@@ -90,7 +104,7 @@ def correspondence(ctx, violations, known_hits):
         "every instruction form (register/immediate/base+offset/label operands, traps, stack instructions, mixed case and commas) x "
         "random operand values x machine states prepared by move/step/goto x every current PC (origin, after stepping, after goto) x "
         "labels before and after the PC, at origins x3000 and x9000, both feature settings; malformed: missing, surplus, wrong-kind "
-        "operands, directives, two instructions, off-limits instructions (BR*, RTI, HALT, unknown traps), out-of-range literals; "
+        "operands, directives, two instructions, label operands exactly at, inside and beyond the reach of each 9-/10-/11-bit field in both directions,  off-limits instructions (BR*, RTI, HALT, unknown traps), out-of-range literals; "
         "after each: registers + the data words + exit, full machine comparison", profiles)
 
 
